@@ -204,24 +204,28 @@ Proof.
   destruct (aget k page); reflexivity.
 Qed.
 
-(* _get_cache_kw: the first use of a defname fixes its arguments *)
-Theorem regions_frozen regions d tmpl kw kw' :
-  assocS d regions = None ->
-  let (a, regions1) := get_cache_kw regions d tmpl kw in
-  a = update tmpl kw /\ fst (get_cache_kw regions1 d tmpl kw') = a.
-Proof.
-  intros H. unfold get_cache_kw. rewrite H. cbn [assocS]. rewrite str_eqb_refl. split; reflexivity.
-Qed.
+(* _get_cache_kw: every render hands the backend its own arguments, whatever was asked before (an invalidate_*() before
+   the first render included: the history of the repaired defect C17-F2) *)
+Theorem render_args_are_its_own regions d tmpl kw :
+  fst (get_cache_kw regions d true tmpl kw) = update tmpl kw.
+Proof. reflexivity. Qed.
 
-(* hence an invalidate_*() (which passes no arguments) before the first render fixes the
-   template-level arguments for good: the section's own never reach the backend -- C17-F2 *)
-Theorem args_after_early_invalidate_refuted :
-  exists tmpl kw d,
-    let regions1 := snd (get_cache_kw [] d tmpl []) in          (* invalidate_def(d) first *)
-    fst (get_cache_kw regions1 d tmpl kw) <> update tmpl kw.     (* then the section renders *)
-Proof.
-  exists [(s2l "timeout", 7)], [(s2l "timeout", 90)], (s2l "render_body"). vm_compute. discriminate.
-Qed.
+(* an invalidate_*() records nothing *)
+Theorem invalidate_records_nothing regions d tmpl kw :
+  snd (get_cache_kw regions d false tmpl kw) = regions.
+Proof. unfold get_cache_kw. destruct (assocS d regions); reflexivity. Qed.
+
+(* ... and addresses the backend with the arguments of the section's last render *)
+Theorem invalidate_uses_last_render_args regions d tmpl kw kw' :
+  let regions1 := snd (get_cache_kw regions d true tmpl kw) in
+  fst (get_cache_kw regions1 d false tmpl kw') = update tmpl kw.
+Proof. unfold get_cache_kw. cbn [snd assocS]. rewrite str_eqb_refl. reflexivity. Qed.
+
+Example early_invalidate_then_render :
+  let tmpl := [(s2l "timeout", 7)] in let kw := [(s2l "timeout", 90)] in let d := s2l "render_body" in
+  let regions1 := snd (get_cache_kw [] d false tmpl []) in          (* invalidate_body() first *)
+  fst (get_cache_kw regions1 d true tmpl kw) = [(s2l "timeout", 90)].  (* then the section renders *)
+Proof. vm_compute. reflexivity. Qed.
 
 (* ---- rendering one template never reads or writes the entries of another cache id -------- *)
 
